@@ -614,9 +614,9 @@ func (d *dhDoc) reads(o dhReadOpts) []dhFinding {
 			want[i] = []any{l[0], l[1]}
 			keys[i] = l[0].(string)
 		}
-		for name, c := range map[string]dom.Container{"Flatten": d.root, "Seal().Flatten": sv} {
+		for i, c := range []dom.Container{d.root, sv} {
 			if got := flattenWire(c); canon(got) != canon(want) {
-				out = append(out, dhFinding{name, map[string]any{"observed": got, "expected": want}})
+				out = append(out, dhFinding{[]string{"Flatten", "Seal().Flatten"}[i], map[string]any{"observed": got, "expected": want}})
 			}
 		}
 		found := d.root.Search(func(interface{}) bool { return true })
@@ -641,7 +641,8 @@ func (d *dhDoc) reads(o dhReadOpts) []dhFinding {
 		}
 	}
 	if o.Serialize {
-		for name, enc := range map[string]dom.EncoderFunc{"yaml": dom.DefaultYamlEncoder, "json": dom.DefaultJsonEncoder} {
+		for i, enc := range []dom.EncoderFunc{dom.DefaultYamlEncoder, dom.DefaultJsonEncoder} {
+			name := []string{"yaml", "json"}[i]
 			var a, b bytes.Buffer
 			e1 := d.root.Serialize(&a, dom.DefaultNodeEncoderFn, enc)
 			e2 := fresh.(dom.Container).Serialize(&b, dom.DefaultNodeEncoderFn, enc)
